@@ -49,6 +49,13 @@ pub enum T {
     Packed(Vec<(usize, usize, usize)>, bool),
 }
 
+/// fixed-array lengths: small numbers stand for themselves, 1000+i for a 256-bit boundary length
+pub fn fixlen(n: u64) -> U256 {
+    let one = U256::ONE;
+    match n { 1000 => one << 64u32, 1001 => (one << 64u32) + one, 1002 => one << 128u32, 1003 => one << 255u32, 1004 => U256::MAX, 1005 => (one << 64u32) + U256::new(2), _ => U256::from(n) }
+}
+
+
 /// one typing judgement
 #[derive(Clone, Debug, PartialEq, Eq)]
 pub enum J {
@@ -124,7 +131,7 @@ fn to_te(t: &T, tv: &[TypeVariable]) -> TE {
         T::Word(w, u) => TE::word(*w, *u),
         T::Map(k, v) => TE::mapping(tv[*k], tv[*v]),
         T::Dyn(e) => TE::dyn_array(tv[*e]),
-        T::Fix(e, n) => TE::FixedArray { element: tv[*e], length: U256::from(*n) },
+        T::Fix(e, n) => TE::FixedArray { element: tv[*e], length: fixlen(*n) },
         T::Packed(s, st) => TE::Packed { types: s.iter().map(|(v, o, z)| Span::new(tv[*v], *o, *z)).collect(), is_struct: *st },
     }
 }
@@ -453,7 +460,7 @@ pub fn violations(n: usize, js: &[J], r: &Run) -> Vec<(&'static str, String, Str
         let pairs: Vec<(usize, usize)> = match (t, res) {
             (T::Map(k, w), TE::Mapping { key, value }) => vec![(r.ids[*k], key.index()), (r.ids[*w], value.index())],
             (T::Dyn(e), TE::DynamicArray { element }) => vec![(r.ids[*e], element.index())],
-            (T::Fix(e, len), TE::FixedArray { element, length }) if U256::from(*len) == *length => vec![(r.ids[*e], element.index())],
+            (T::Fix(e, len), TE::FixedArray { element, length }) if fixlen(*len) == *length => vec![(r.ids[*e], element.index())],
             _ => vec![],
         };
         for (mine, theirs) in pairs {
@@ -590,6 +597,13 @@ fn c14_named_shapes() {
         (4, vec![J::Is(0, T::Packed(vec![(1, 0, 64), (2, 32, 64)], false)), J::Is(0, T::Packed(vec![(3, 0, 256)], false)), J::Is(3, w(256, WordUse::Bytes))]),
         // nested constructors met through an equality
         (7, vec![J::Is(0, T::Dyn(1)), J::Is(2, T::Dyn(3)), J::Eq(0, 2), J::Is(1, T::Fix(4, 3)), J::Is(3, T::Fix(5, 3)), J::Is(4, T::Word(None, WordUse::Numeric)), J::Is(5, w(64, WordUse::SignedNumeric)), J::Eq(6, 5)]),
+        // fixed arrays of one and the same 256-bit length (2^64, 2^255, 2^256-1): the elements must be unified
+        (4, vec![J::Is(0, T::Fix(1, 1000)), J::Is(0, T::Fix(2, 1000)), J::Is(1, w(64, WordUse::UnsignedNumeric)), J::Is(3, T::Any)]),
+        (4, vec![J::Is(0, T::Fix(1, 1003)), J::Is(3, T::Fix(2, 1003)), J::Eq(0, 3), J::Is(2, w(160, WordUse::Address))]),
+        (3, vec![J::Is(0, T::Fix(1, 1004)), J::Is(0, T::Fix(2, 1004))]),
+        // towers of nested constructors equated at the top: every level needs its own round of the fixpoint
+        (50, { let mut v = vec![J::Eq(0, 25)]; for i in 0..24 { v.push(J::Is(i, T::Dyn(i + 1))); v.push(J::Is(25 + i, T::Dyn(26 + i))); } v.push(J::Is(24, w(64, WordUse::SignedNumeric))); v.push(J::Is(49, T::Word(None, WordUse::Numeric))); v }),
+        (50, { let mut v = vec![J::Eq(0, 25)]; for i in 0..24 { v.push(J::Is(i, T::Map(i + 1, i + 1))); v.push(J::Is(25 + i, T::Map(26 + i, 26 + i))); } v.push(J::Is(24, w(160, WordUse::Address))); v }),
         // equalities only, and transitively
         (5, vec![J::Eq(0, 1), J::Eq(1, 2), J::Eq(3, 2), J::Is(3, T::Bytes), J::Is(0, T::Any)]),
     ];
